@@ -23,21 +23,25 @@ RN_ASSUMPTION = ("decimal<->binary64: a float lexeme's value is taken from a hin
 
 PLANS = {
     "C01": {
+        "drive": [{"kind": "codec", "count": {"quick": 1500, "thorough": 30000}}],
         "gen": [gen("codec", "codec", ["roundtrip", "to_vec"]),
                 gen("num", "num", ["roundtrip"])],
         "bounds": "all documents of depth<=1 width<=W over 8 atoms, depth 2 width 2 over 8 representative containers, 28 wide atoms; W=2 quick, 3 thorough",
     },
     "C05": {
+        "drive": [{"kind": "acc", "count": {"quick": 1500, "thorough": 30000}}],
         "gen": [gen("acc", "acc", ACC_OPS)],
         "bounds": "every document of the bounded universe x every index -1..len+1, every present key/case variant/prefix/extension, every key path to depth+1",
     },
     "C06": {
+        "drive": [{"kind": "edit", "count": {"quick": 1500, "thorough": 30000}}, {"kind": "pairs:concat", "count": {"quick": 500, "thorough": 8000}}],
         "gen": [gen("edit", "edit", EDIT_OPS, wq=1, wt=2),
                 gen("concat", "pairs", ["concat"]),
                 gen("build", "build", ["build_array", "build_object"])],
         "bounds": "bounded universe x all positions -len-2..len+2, all key subsets <=3, all key paths to depth+1; builders: all lists <=3 with keys in every order and duplicates",
     },
     "C02": {
+        "drive": [{"kind": "text", "count": {"quick": 1500, "thorough": 30000}}],
         "gen": [
             {"name": "corrupt", "module": "GenText", "constants": {"Family": '"corrupt"', "MaxLen": "0"}},
             {"name": "fixed", "module": "GenText", "constants": {"Family": '"fixed"', "MaxLen": "0"}},
@@ -48,10 +52,12 @@ PLANS = {
         "bounds": "every deletion/replacement/insertion of one of 21 tokens at every position and every byte-prefix of 9 well-formed documents; all strings of <=L characters over the number alphabet {-,0,1,9,.,e,E,+} (bare and in an array) and over a 15-character string alphabet (quotes, backslash, u, braces, hex, control, multi-byte); 10 escape units around the surrogate ranges alone/paired/mis-paired in both bracket forms; integer/float classification at 2^63, 2^64 and the ends of the double range; token soups of <=L tokens over 10 tokens",
     },
     "C03": {
+        "drive": [{"kind": "render", "count": {"quick": 800, "thorough": 15000}}],
         "gen": [gen("render", "render", ["render"])],
         "bounds": "strings of every code-point class (each control character 0x00-0x1F alone and embedded, DEL, quote, backslash, slash, U+2028/9, astral, replacement char) as values and keys down to three levels; every finite number of the 80-number boundary set; nested empty containers",
     },
     "C04": {
+        "drive": [{"kind": "pairs:compare", "count": {"quick": 1500, "thorough": 30000}}, {"kind": "pairs_repr:compare", "count": {"quick": 400, "thorough": 6000}}],
         "gen": [gen("cmp", "pairs", ["compare"]), gen("cmp2", "pairs2", ["compare"])],
         "bounds": "all ordered pairs of the 70-document pair universe (number encodings of equal value, 2^53 neighbours, prefixes, length-only and deep differences)",
     },
@@ -99,6 +105,7 @@ PLANS = {
         "bounds": "all key paths of <=2 elements over 16 elements (indices 0, +-1, i32 min/max; plain, multi-byte, quoted, empty-quoted, escaped-quote, backslash, digit-quoted names) plus longer lists x 3 spacings; 8 certainly-invalid edits per path; byte soups",
     },
     "C10": {
+        "drive": [{"kind": "decode", "count": {"quick": 2000, "thorough": 40000}}],
         "gen": [
             {"name": "fault", "module": "GenFault", "constants": {"Family": '"fault"', "Double": "FALSE"}},
             {"name": "texts", "module": "GenFault", "constants": {"Family": '"texts"', "Double": "FALSE"}},
@@ -108,6 +115,7 @@ PLANS = {
         "assumptions": ["root header counts >= 2^24 are excluded: the decoder's pre-allocation would then depend on the host's overcommit policy"],
     },
     "C11": {
+        "drive": [{"kind": "repr", "count": {"quick": 1200, "thorough": 20000}}, {"kind": "pairs_repr", "count": {"quick": 800, "thorough": 15000}}],
         "gen": [gen("acc11", "acc11", ACC_OPS + ["to_string", "to_pretty_string", "lazy", "comparable_all"], rp="{1, 2, 3}"),
                 gen("edit11", "edit11", EDIT_OPS + ["array_distinct"], rp="{0, 1, 3}"),
                 gen("pairs11", "pairs11", ["compare", "contains", "concat", "array_intersection", "array_except", "array_overlap"], rp="{0, 2, 3}")],
@@ -115,20 +123,24 @@ PLANS = {
         "assumptions": [RN_ASSUMPTION],
     },
     "C12": {
+        "drive": [{"kind": "pairs:contains", "count": {"quick": 1500, "thorough": 30000}}],
         "gen": [gen("contains", "pairs", ["contains"]), gen("contains2", "pairs2", ["contains"])],
         "bounds": "all ordered pairs of the pair universe",
     },
     "C13": {
+        "drive": [{"kind": "pairs:array_intersection", "count": {"quick": 600, "thorough": 10000}}, {"kind": "pairs:array_except", "count": {"quick": 600, "thorough": 10000}}, {"kind": "pairs:array_overlap", "count": {"quick": 600, "thorough": 10000}}],
         "gen": [gen("sets", "pairs", ["array_intersection", "array_except", "array_overlap"]),
-                gen("sets2", "pairs2", ["array_intersection", "array_except", "array_overlap"]),
+                gen("sets2", "pairs2", ["array_intersection", "array_except", "array_overlap"], tiers=("thorough",)),
                 gen("distinct", "edit", ["array_distinct"])],
         "bounds": "all ordered pairs of the pair universe; distinct over the bounded universe",
     },
     "C19": {
+        "drive": [{"kind": "serde", "count": {"quick": 800, "thorough": 15000}}],
         "gen": [gen("serde", "render", ["serde"])],
         "bounds": "the C03 universe: strings of every code-point class as values and keys, every finite number of the boundary set (u64/i64 extremes), nested empty containers",
     },
     "C17": {
+        "drive": [{"kind": "edit", "count": {"quick": 800, "thorough": 15000}}, {"kind": "pairs:concat", "count": {"quick": 300, "thorough": 5000}}],
         "gen": [gen("edit11", "edit11", EDIT_OPS + ["array_distinct"], tiers=("quick",)),
                 gen("edit", "edit", EDIT_OPS + ["array_distinct"], wq=1, wt=2, tiers=("thorough",)),
                 gen("pairs", "pairs11", ["concat", "array_intersection", "array_except"], tiers=("quick",)),
@@ -139,10 +151,12 @@ PLANS = {
         "bounds": "every buffer-writing function on the bounded universes, each call made twice: into an empty buffer and into a buffer that already holds bytes (and, for path selection, earlier offsets); documented error cases included",
     },
     "C14": {
+        "drive": [{"kind": "pairs:comparable2", "count": {"quick": 1500, "thorough": 30000}}],
         "gen": [gen("keys", "pairs", ["comparable2"]), gen("keys2", "pairs2", ["comparable2"])],
         "bounds": "all ordered pairs of the 70-document pair universe and of the 92-document structured universe",
     },
     "C18": {
+        "drive": [{"kind": "num", "count": {"quick": 2000, "thorough": 40000}}],
         "gen": [gen("num", "num", ["num", "num_decode", "casts"]),
                 gen("numpairs", "numpairs", ["num_cmp"])],
         "bounds": "80-number boundary set (every width boundary +-1 of both integer encodings, 2^53/2^63/2^64 neighbourhoods, IEEE class boundaries): all numbers, all ordered pairs; decoder: 11 tags x 3 fillers x lengths 0..10",
